@@ -4,6 +4,11 @@
 // pruning runs, on a LevelDB WITHOUT the ARC node cache (reads behave as after
 // a process restart).  After every operation every state root produced so far
 // is read key by key; record counts by key class are taken from the database.
+//
+// The store streams run the same kind of history through a STORE created by
+// mavl.New from a sub-configuration JSON (enableMavlPrune with enableMavlPrefix
+// on or off, pruneHeight 2-10): Store.Set / MemSet+Commit / Get; the node cache
+// the store switches on is emptied before every operation (as after a restart).
 package main
 
 import (
@@ -17,6 +22,8 @@ import (
 
 	dbm "github.com/33cn/chain33/common/db"
 	clog "github.com/33cn/chain33/common/log"
+	drivers "github.com/33cn/chain33/system/store"
+	mavlstore "github.com/33cn/chain33/system/store/mavl"
 	mavldb "github.com/33cn/chain33/system/store/mavl/db"
 	"github.com/33cn/chain33/types"
 	"verifharness/hlib"
@@ -46,6 +53,11 @@ type History struct {
 	Ops     []Op     `json:"ops"`
 	Kind    string   `json:"kind"`
 	Guarded bool     `json:"guarded"`
+	// Store: run through a store created by mavl.New with the sub-configuration
+	// {enableMavlPrefix: Prefix, enableMavlPrune: Prune, pruneHeight: PH}
+	Store  bool `json:"store,omitempty"`
+	Prefix bool `json:"prefix,omitempty"`
+	Prune  bool `json:"prune,omitempty"`
 }
 
 func unhex(s string) []byte {
@@ -148,12 +160,59 @@ func shortIdx(k []byte) string {
 	return string(rest) + "|" + short(hash)
 }
 
+// backend: what a history is run against.
+type backend interface {
+	// commit returns the state root; st 0 ok, 1 error, 2 panic
+	commit(op Op, parentRoot []byte, kvs []*types.KeyValue) (root []byte, st int, note string)
+	prune(cur int64) (st int, note string)
+	restart()
+	beforeReads()
+	// probe one key at one root: 0 = failed (error or panic), 1 = absent, 2+i = value i
+	probeKey(root, key []byte, vt *tab) int
+	rawDB() dbm.DB
+	close()
+}
+
+// ---- the node database API (mavl/db) with its own TreeConfig ----
+
 type env struct {
 	db  dbm.DB
 	cfg *mavldb.TreeConfig
 }
 
-// probe one key at one root: 0 = failed (error or panic), 1 = absent, 2+i = value i
+func (e *env) rawDB() dbm.DB { return e.db }
+func (e *env) close()        { e.db.Close() }
+func (e *env) restart()      { mavldb.VerifResetPruneGlobals() }
+func (e *env) beforeReads()  {}
+
+func (e *env) prune(cur int64) (st int, note string) {
+	defer func() {
+		if r := recover(); r != nil {
+			st, note = 2, fmt.Sprint(r)
+		}
+	}()
+	mavldb.PruningTree(e.db, cur, e.cfg)
+	return
+}
+
+func (e *env) commit(op Op, parentRoot []byte, kvs []*types.KeyValue) (root []byte, st int, note string) {
+	if op.M == 1 && len(kvs) == 0 {
+		// Store.MemSet: "use preStateHash as stateHash for kvset is null"; Commit does nothing
+		return parentRoot, 0, ""
+	}
+	defer mavldb.VerifWaitPrune()
+	defer func() {
+		if r := recover(); r != nil {
+			root, st, note = nil, 2, fmt.Sprint(r)
+		}
+	}()
+	r, err := mavldb.SetKVPair(e.db, &types.StoreSet{StateHash: parentRoot, KV: kvs, Height: op.H}, false, e.cfg)
+	if err != nil {
+		return nil, 1, err.Error()
+	}
+	return r, 0, ""
+}
+
 func (e *env) probeKey(root, key []byte, vt *tab) (code int) {
 	defer func() {
 		if r := recover(); r != nil {
@@ -172,6 +231,117 @@ func (e *env) probeKey(root, key []byte, vt *tab) (code int) {
 	}
 	return 2 + vt.ix(vals[0])
 }
+
+// ---- the store (system/store/mavl) created by mavl.New from a sub-configuration ----
+
+type storeEnv struct {
+	dir string
+	sub []byte
+	ph  int32
+	st  *mavlstore.Store
+}
+
+func subJSON(h *History) []byte {
+	return []byte(fmt.Sprintf(`{"enableMavlPrefix":%v,"enableMavlPrune":%v,"pruneHeight":%d}`, h.Prefix, h.Prune, h.PH))
+}
+
+func (e *storeEnv) open() {
+	cfg := &types.Store{Name: "mavl", Driver: "leveldb", DbPath: e.dir, DbCache: 16}
+	e.st = mavlstore.New(cfg, e.sub, nil).(*mavlstore.Store)
+}
+
+func (e *storeEnv) rawDB() dbm.DB { return e.st.GetDB() }
+
+// never Store.Close: it sets the package-wide quit flag of mavl/db, after which every pruning run is a no-op
+func (e *storeEnv) close() { e.st.GetDB().Close() }
+
+// a process restart: the database is closed and a new store is created on it
+func (e *storeEnv) restart() {
+	mavldb.VerifWaitPrune()
+	e.st.GetDB().Close()
+	mavldb.VerifResetPruneGlobals()
+	e.open()
+}
+
+// the store's database has the ARC node cache on: empty it (what a restart does),
+// so that reads and commits see the database as it is
+func (e *storeEnv) purge() {
+	if c := e.st.GetDB().GetCache(); c != nil {
+		c.Purge()
+	}
+}
+
+func (e *storeEnv) beforeReads() { e.purge() }
+
+// the store has no call for a pruning run (Tree.Save starts them in the background);
+// a synchronous run uses the package function on the store's database
+func (e *storeEnv) prune(cur int64) (st int, note string) {
+	e.purge()
+	defer func() {
+		if r := recover(); r != nil {
+			st, note = 2, fmt.Sprint(r)
+		}
+	}()
+	mavldb.PruningTree(e.st.GetDB(), cur, &mavldb.TreeConfig{PruneHeight: e.ph})
+	return
+}
+
+func isEmptyRoot(r []byte) bool { return len(r) == 0 || bytes.Equal(r, drivers.EmptyRoot[:]) }
+
+func (e *storeEnv) commit(op Op, parentRoot []byte, kvs []*types.KeyValue) (root []byte, st int, note string) {
+	e.purge()
+	if parentRoot == nil {
+		parentRoot = drivers.EmptyRoot[:] // what the blockchain module passes for the first block
+	}
+	defer mavldb.VerifWaitPrune()
+	defer func() {
+		if r := recover(); r != nil {
+			root, st, note = nil, 2, fmt.Sprint(r)
+		}
+	}()
+	set := &types.StoreSet{StateHash: parentRoot, KV: kvs, Height: op.H}
+	var r []byte
+	var err error
+	if op.M == 1 {
+		r, err = e.st.MemSet(set, false)
+		if err == nil {
+			_, err = e.st.Commit(&types.ReqHash{Hash: r})
+		}
+	} else {
+		r, err = e.st.Set(set, false)
+	}
+	if err != nil {
+		return nil, 1, err.Error()
+	}
+	if isEmptyRoot(r) {
+		r = nil
+	}
+	return r, 0, ""
+}
+
+// Store.Get gives nil for every key when the root does not load (code 1, like an absent key)
+func (e *storeEnv) probeKey(root, key []byte, vt *tab) (code int) {
+	defer func() {
+		if r := recover(); r != nil {
+			code = 0
+		}
+	}()
+	if root == nil {
+		return 1
+	}
+	vals := e.st.Get(&types.StoreGet{StateHash: root, Keys: [][]byte{key}})
+	if len(vals) != 1 {
+		return 0
+	}
+	if vals[0] == nil {
+		return 1
+	}
+	return 2 + vt.ix(vals[0])
+}
+
+// inertPruning is set when the canary history's pruning runs deleted nothing
+// (mavl/db's package-wide quit flag set by Store.Close / ClosePrune makes every run a no-op).
+var inertPruning []string
 
 // tab interns byte strings.
 type tab struct {
@@ -204,10 +374,18 @@ func runHistory(o *hlib.Out, h *History, workdir string, serial int, dump bool) 
 	dir := filepath.Join(workdir, fmt.Sprintf("c05db-%d-%d", os.Getpid(), serial))
 	os.RemoveAll(dir)
 	defer os.RemoveAll(dir)
-	db := dbm.NewDB("store", "leveldb", dir, 16) // no SetCacheSize: node cache stays nil
-	defer db.Close()
 	mavldb.VerifResetPruneGlobals()
-	e := &env{db: db, cfg: &mavldb.TreeConfig{EnableMavlPrefix: true, EnableMavlPrune: true, PruneHeight: h.PH}}
+	var e backend
+	if h.Store {
+		se := &storeEnv{dir: dir, sub: subJSON(h), ph: h.PH}
+		se.open()
+		e = se
+	} else {
+		db := dbm.NewDB("store", "leveldb", dir, 16) // no SetCacheSize: node cache stays nil
+		e = &env{db: db, cfg: &mavldb.TreeConfig{EnableMavlPrefix: true, EnableMavlPrune: true, PruneHeight: h.PH}}
+	}
+	defer func() { e.close() }()
+	peakNodes, lastNodes := 0, 0
 
 	kt, vt := newTab(), newTab()
 	keys := make([][]byte, len(h.Keys))
@@ -249,17 +427,10 @@ func runHistory(o *hlib.Out, h *History, workdir string, serial int, dump bool) 
 		var term string
 		switch op.T {
 		case "r":
-			mavldb.VerifResetPruneGlobals()
+			e.restart()
 			term = "OR"
 		case "p":
-			func() {
-				defer func() {
-					if r := recover(); r != nil {
-						io.St, io.Note = 2, fmt.Sprint(r)
-					}
-				}()
-				mavldb.PruningTree(db, op.H, e.cfg)
-			}()
+			io.St, io.Note = e.prune(op.H)
 			nPrune++
 		case "c":
 			var parentRoot []byte
@@ -274,25 +445,7 @@ func runHistory(o *hlib.Out, h *History, workdir string, serial int, dump bool) 
 				kvTerms[i] = hexByte(kt.ix(k)) + hexByte(vt.ix(v))
 			}
 			var root []byte
-			if op.M == 1 && len(kvs) == 0 {
-				// Store.MemSet: "use preStateHash as stateHash for kvset is null"; Commit does nothing
-				root = parentRoot
-			} else {
-				func() {
-					defer func() {
-						if r := recover(); r != nil {
-							io.St, io.Note = 2, fmt.Sprint(r)
-						}
-					}()
-					r, err := mavldb.SetKVPair(db, &types.StoreSet{StateHash: parentRoot, KV: kvs, Height: op.H}, false, e.cfg)
-					if err != nil {
-						io.St, io.Note = 1, err.Error()
-						return
-					}
-					root = r
-				}()
-				mavldb.VerifWaitPrune()
-			}
+			root, io.St, io.Note = e.commit(op, parentRoot, kvs)
 			rid := -1
 			if io.St == 0 {
 				if root != nil {
@@ -308,7 +461,12 @@ func runHistory(o *hlib.Out, h *History, workdir string, serial int, dump bool) 
 			panic("bad op " + op.T)
 		}
 		if op.T != "r" {
-			io.Cnt = dbCounts(db, dump)
+			io.Cnt = dbCounts(e.rawDB(), dump)
+			lastNodes = io.Cnt.Nodes
+			if lastNodes > peakNodes {
+				peakNodes = lastNodes
+			}
+			e.beforeReads()
 			// probe every root known so far
 			live := map[int]bool{}
 			if tip >= 0 {
@@ -370,6 +528,12 @@ func runHistory(o *hlib.Out, h *History, workdir string, serial int, dump bool) 
 		impl = append(impl, io)
 	}
 	coq := fmt.Sprintf("(Case %d %s %s [%s])", h.PH, hlib.ListHx(kt.list), hlib.ListHx(vt.list), strings.Join(terms, ";"))
+	if h.Store {
+		coq = fmt.Sprintf("(SCase %v %v %d %s %s [%s])", h.Prefix, h.Prune, h.PH, hlib.ListHx(kt.list), hlib.ListHx(vt.list), strings.Join(terms, ";"))
+		if h.Kind == canaryKind && lastNodes >= peakNodes {
+			inertPruning = append(inertPruning, fmt.Sprintf("%s: node records at the end %d, peak %d", h.Kind, lastNodes, peakNodes))
+		}
+	}
 	nontrivial := nCommit >= 3 && maxLeaves >= 2 && (nPrune > 0 || autoPrunes(h) > 0)
 	o.Emit(h.Kind, nontrivial, coq, h, impl)
 }
@@ -606,6 +770,136 @@ func witnessEmptyFork() *History {
 	return h
 }
 
+// ---------- store streams ----------
+
+const canaryKind = "store-witness-returns"
+
+// the shipped-style configuration (prune switched on, prefix left off): an account goes
+// 100 -> 70 -> 100 (its value returns to an earlier value) while a counter changes on every
+// block; the commit at height 2*PH starts a pruning run, one more is run at the tip.
+// Also the canary against inert pruning: its runs must delete node records.
+func witnessStoreReturns(ph int32, prefix bool) *History {
+	h := &History{PH: ph, Kind: canaryKind, Guarded: true, Store: true, Prefix: prefix, Prune: true,
+		Keys: []string{hx("acct-1"), hx("acct-2"), hx("acct-3"), hx("ctr"), hx("zz-absent")}}
+	h.Ops = append(h.Ops, Op{T: "c", H: 1, P: -1, M: 1, KV: []Write{{hx("acct-1"), hx("100")}, {hx("acct-2"), hx("100")}, {hx("acct-3"), hx("100")}, {hx("ctr"), hx("h1")}}})
+	h.Ops = append(h.Ops, Op{T: "c", H: 2, P: 0, M: 1, KV: []Write{{hx("acct-3"), hx("70")}, {hx("ctr"), hx("h2")}}})
+	h.Ops = append(h.Ops, Op{T: "c", H: 3, P: 1, M: 1, KV: []Write{{hx("acct-3"), hx("100")}, {hx("ctr"), hx("h3")}}})
+	tip := int64(2*ph + 1)
+	for i := int64(4); i <= tip; i++ {
+		h.Ops = append(h.Ops, Op{T: "c", H: i, P: int(i - 2), M: int(i % 2), KV: []Write{{hx("ctr"), hx(fmt.Sprintf("h%d", i))}}})
+	}
+	h.Ops = append(h.Ops, Op{T: "p", H: tip})
+	return h
+}
+
+type sparams struct {
+	kind    string
+	nkeys   int // keys with a small value alphabet (values return), besides the counter
+	clock   int // chance /16 that the history has a counter key written by every writing commit
+	gaps    int // chance /16 of a height gap
+	empties int // chance /16 of an empty write set
+	prunes  int // chance /16 of a synchronous pruning run after a commit
+	restart int // chance /16 of a restart (store closed and created again)
+	maxPH   int
+}
+
+// storeHistory: a LINEAR history for the store in which every writing commit produces a state
+// not seen before in the history (so every state root is new), while the values of single keys
+// come from two or three values per key: they return to earlier values (A -> B -> A) and are
+// rewritten unchanged next to other changes.
+func (g *gen) storeHistory(p sparams) *History {
+	r := g.r
+	ph := int32(hlib.Pick(r, []int{2, 2, 3, 3, 4, 5, 6, 8, 10}))
+	if int(ph) > p.maxPH {
+		ph = int32(p.maxPH)
+	}
+	h := &History{PH: ph, Kind: p.kind, Guarded: true, Store: true, Prefix: r.Chance(1, 2), Prune: true}
+	perm := append([]string{}, alphabet[:len(alphabet)-1]...) // without the empty key: the counter may be any key
+	hlib.Shuffle(r, perm)
+	univ := perm[:p.nkeys]
+	clock := ""
+	if r.Chance(p.clock, 16) {
+		clock = perm[p.nkeys]
+	}
+	for _, k := range univ {
+		h.Keys = append(h.Keys, hx(k))
+	}
+	if clock != "" {
+		h.Keys = append(h.Keys, hx(clock))
+	}
+	h.Keys = append(h.Keys, hx("zz-absent"))
+	vals := []string{"A", "B", "C"}[:r.Range(2, 3)]
+	state := map[string]string{}
+	seen := map[string]bool{stateKey(state): true}
+	nops := 2*int(ph) + r.Range(1, 5)
+	if nops > 24 {
+		nops = 24
+	}
+	height := int64(0)
+	if r.Chance(1, 3) {
+		height = -1 // first commit at the genesis height 0
+	}
+	ncommit := 0
+	for tries := 0; ncommit < nops && tries < 40*nops; tries++ {
+		var kv []Write
+		if !(ncommit > 0 && r.Chance(p.empties, 16)) {
+			nw := r.Range(1, 3)
+			if ncommit == 0 {
+				nw = p.nkeys // the first block creates the accounts
+			}
+			for i := 0; i < nw; i++ {
+				k := univ[(i+r.Intn(len(univ)))%len(univ)]
+				if ncommit == 0 {
+					k = univ[i]
+				}
+				kv = append(kv, Write{hx(k), hx(hlib.Pick(r, vals) + k[:1])})
+			}
+			if clock != "" {
+				kv = append(kv, Write{hx(clock), hx(fmt.Sprintf("t%d", ncommit))})
+			}
+		}
+		st := map[string]string{}
+		for k, v := range state {
+			st[k] = v
+		}
+		for _, w := range kv {
+			st[string(unhex(w.K))] = string(unhex(w.V))
+		}
+		if len(kv) > 0 {
+			if seen[stateKey(st)] {
+				continue
+			}
+			seen[stateKey(st)] = true
+		}
+		height++
+		if r.Chance(p.gaps, 16) {
+			height += int64(r.Range(1, 2))
+		}
+		m := 1 // the way the blockchain module drives the store
+		if r.Chance(1, 3) {
+			m = 0
+		}
+		h.Ops = append(h.Ops, Op{T: "c", H: height, P: ncommit - 1, M: m, KV: kv})
+		state = st
+		ncommit++
+		if r.Chance(p.prunes, 16) {
+			cur := height
+			if r.Chance(1, 4) && cur > 0 {
+				cur -= int64(r.Range(1, 2))
+				if cur < 0 {
+					cur = 0
+				}
+			}
+			h.Ops = append(h.Ops, Op{T: "p", H: cur})
+		}
+		if r.Chance(p.restart, 16) {
+			h.Ops = append(h.Ops, Op{T: "r"})
+		}
+	}
+	h.Ops = append(h.Ops, Op{T: "p", H: height})
+	return h
+}
+
 func main() {
 	opts := hlib.ParseFlags()
 	clog.SetLogLevel("crit")
@@ -659,6 +953,41 @@ func main() {
 		for i := 0; i < s.n*mult; i++ {
 			run(g.history(s.p))
 		}
+	}
+	// the store created by mavl.New (own generator state: the streams above stay as they were)
+	gs := &gen{r: hlib.NewRng(opts.Seed ^ 0xC05B)}
+	run(witnessStoreReturns(2, false))
+	run(witnessStoreReturns(3, true))
+	run(witnessStoreReturns(10, false))
+	if len(inertPruning) > 0 {
+		// not a pass: nothing below would exercise pruning
+		fmt.Fprintln(os.Stderr, "hC05: FATAL pruning runs are inert (mavl/db quit flag set?):", strings.Join(inertPruning, "; "))
+		out.Close()
+		os.RemoveAll(workdir)
+		os.Exit(3)
+	}
+	sstreams := []struct {
+		n int
+		p sparams
+	}{
+		{24, sparams{kind: "store-returns-small", nkeys: 2, clock: 12, prunes: 3, restart: 1, maxPH: 4}},
+		{30, sparams{kind: "store-returns", nkeys: 4, clock: 10, gaps: 2, empties: 1, prunes: 3, restart: 1, maxPH: 10}},
+	}
+	for _, s := range sstreams {
+		for i := 0; i < s.n*mult; i++ {
+			run(gs.storeHistory(s.p))
+		}
+	}
+	// fork / re-commit histories through the store (same generator as the node database streams)
+	for i := 0; i < 10*mult; i++ {
+		h := gs.history(gparams{kind: "store-guarded-forks", nkeys: 5, nops: 12, guarded: true, forks: 4, prunes: 4, restarts: 1, empties: 1, maxWrites: 3})
+		h.Store, h.Prefix, h.Prune = true, gs.r.Chance(1, 2), true
+		run(h)
+	}
+	for i := 0; i < 10*mult; i++ {
+		h := gs.history(gparams{kind: "store-free-forks", nkeys: 4, nops: 12, sameVal: 3, forks: 4, prunes: 4, restarts: 1, empties: 3, maxWrites: 3})
+		h.Store, h.Prefix, h.Prune = true, gs.r.Chance(1, 2), true
+		run(h)
 	}
 	fmt.Printf("hC05: %d cases\n", out.Count())
 }
